@@ -51,6 +51,12 @@ type knobs struct {
 	stakeMins                                        []int64 // minimum stake choices (nil: defaults of bigSlash)
 	burns                                            []int64 // challenge counts of injected burns (nil: default list)
 	pUnjailNearDeadline                              int     // percent: add an authorized unjail tx when a jailed node's deadline is within 100 s of the block time
+	// signing-window geometry (zero values: the spec defaults window 10 / min signed 60%, random absences only)
+	windows       []int64 // SignedBlocksWindow choices
+	minSignedPct  []int   // MinSignedPerWindow choices in percent (100: a single missed block jails)
+	pLatePlan     int     // percent per drawn victim: absences planned so that the downtime threshold is crossed in one of the last two blocks of a signing window (or its first block)
+	pUnjailFresh  int     // percent: add an authorized unjail tx for a node jailed within the last 3 blocks, whatever its deadline
+	pSmallDTFresh int     // percent: small time step (0-5 s) while a node jailed within the last 3 blocks exists
 }
 
 // sessRec is one successfully dispatched session.
@@ -105,6 +111,11 @@ type director struct {
 	T       map[string]int64
 	victims map[string]bool
 	hist    []*stepRec
+	// generator-side memory (never used by an oracle): planned jailing phase per victim (-1: random absences), and for every
+	// currently jailed node the height at which the director saw it jailed and the deadline it saw then
+	plan         map[string]int64
+	jailedAtH    map[string]int64
+	jailDeadline map[string]time.Time
 }
 
 func newDirector(rt *rapid.T, c *harness.Case, k knobs) *director {
@@ -130,13 +141,20 @@ func newDirector(rt *rapid.T, c *harness.Case, k knobs) *director {
 	np.MaxJailedBlocks = int64(rapid.SampledFrom([]int{2, 3, 5, 12}).Draw(rt, "maxJailedBlocks"))
 	np.DowntimeJailDuration = time.Duration(rapid.SampledFrom([]int{60, 120}).Draw(rt, "jailSecs")) * time.Second
 	np.MaxEvidenceAge = time.Duration(rapid.SampledFrom([]int{30, 150}).Draw(rt, "evidenceAgeMin")) * time.Minute
-	d := &director{rt: rt, c: c, k: k, w: w, keys: map[string]crypto.PrivateKey{}, victims: map[string]bool{}}
+	if k.windows != nil {
+		np.SignedBlocksWindow = rapid.SampledFrom(k.windows).Draw(rt, "signedBlocksWindow")
+	}
+	if k.minSignedPct != nil {
+		np.MinSignedPerWindow = sdk.NewDecWithPrec(int64(rapid.SampledFrom(k.minSignedPct).Draw(rt, "minSigned%")), 2)
+	}
+	d := &director{rt: rt, c: c, k: k, w: w, keys: map[string]crypto.PrivateKey{}, victims: map[string]bool{},
+		plan: map[string]int64{}, jailedAtH: map[string]int64{}, jailDeadline: map[string]time.Time{}}
 	for _, key := range w.AllFunded() {
 		d.keys[hex.EncodeToString(chain.Addr(key))] = key
 	}
 	d.cands = append(append([]crypto.PrivateKey{}, w.Nodes...), w.Spare...)
-	c.Opf("%s era=%d slashDT=%s slashDS=%s min=%d maxJailed=%d jail=%s evAge=%s", w.Describe(), s.GenesisTime.Year(), np.SlashFractionDowntime,
-		np.SlashFractionDoubleSign, np.StakeMinimum, np.MaxJailedBlocks, np.DowntimeJailDuration, np.MaxEvidenceAge)
+	c.Opf("%s era=%d slashDT=%s slashDS=%s min=%d maxJailed=%d jail=%s evAge=%s window=%d minSigned=%s", w.Describe(), s.GenesisTime.Year(), np.SlashFractionDowntime,
+		np.SlashFractionDoubleSign, np.StakeMinimum, np.MaxJailedBlocks, np.DowntimeJailDuration, np.MaxEvidenceAge, np.SignedBlocksWindow, np.MinSignedPerWindow)
 	d.n = chain.NewNode(s)
 	if k.dispatch {
 		// the real session cache, so that dispatch behaves as on a running node (cleared on jail/unjail/edit)
@@ -153,11 +171,71 @@ func newDirector(rt *rapid.T, c *harness.Case, k knobs) *director {
 
 func (d *director) redrawVictims() {
 	d.victims = map[string]bool{}
+	d.plan = map[string]int64{}
 	nv := rapid.IntRange(1, 2).Draw(d.rt, "nVictims")
 	for i := 0; i < nv; i++ {
 		k := d.cands[rapid.IntRange(0, len(d.w.Nodes)-1).Draw(d.rt, "victim")]
-		d.victims[hex.EncodeToString(chain.Addr(k))] = true
+		a := hex.EncodeToString(chain.Addr(k))
+		d.victims[a] = true
+		if d.k.pLatePlan > 0 {
+			d.plan[a] = -1
+			if pct(d.rt, "latePlan", d.k.pLatePlan) {
+				// phase (height mod window) of the block in which the planned absences cross the downtime threshold
+				d.plan[a] = rapid.SampledFrom([]int64{-2, -2, -1, -1, -1, 0}).Draw(d.rt, "jailPhase")
+			}
+		}
 	}
+}
+
+// signingGeometry returns the signing window and the number of blocks a validator may miss per window without punishment.
+func (d *director) signingGeometry() (window, maxMissed int64) {
+	p := d.cur.Params
+	window = p.SignedBlocksWindow
+	return window, window - p.MinSignedPerWindow.MulInt64(window).RoundInt64()
+}
+
+// plannedAbsence: for a victim on a late-window plan, whether it misses the vote counted in block h (ok=false: no plan).
+// It signs from the window start, then misses exactly maxMissed+1 blocks ending at the planned phase: the threshold is
+// crossed at heights h with h mod window in {window-2, window-1} (or 0 when a single miss suffices).
+func (d *director) plannedAbsence(a string, h int64) (absent, ok bool) {
+	ph, has := d.plan[a]
+	if !has || ph == -1 {
+		return false, false
+	}
+	w, mm := d.signingGeometry()
+	if w <= 0 || mm < 0 || mm+2 > w {
+		return false, false
+	}
+	at := w + ph // -2 -> w-2, -1 -> w-1
+	if ph == 0 {
+		if mm > 0 {
+			at = w - 1 // the counter is reset in the first block of a window: only a single-miss threshold can be crossed there
+		} else {
+			at = 0
+		}
+	}
+	pos := h % w
+	if at == 0 {
+		return pos == 0, true
+	}
+	return pos >= at-mm && pos <= at, true
+}
+
+// freshlyJailed reports whether some node was jailed within the last 3 blocks (as the director saw it).
+func (d *director) freshlyJailed(a string, h int64) bool {
+	jh, ok := d.jailedAtH[a]
+	return ok && h-jh >= 0 && h-jh <= 3
+}
+
+// deadlineOf is the jail deadline the generator aims at: the one it saw when the node was jailed, else the stored one.
+func (d *director) deadlineOf(a string) (time.Time, bool) {
+	if t, ok := d.jailDeadline[a]; ok {
+		return t, true
+	}
+	if si, ok := d.cur.SignInfos[a]; ok {
+		return si.JailedUntil, true
+	}
+	return time.Time{}, false
 }
 
 func (d *director) name(a sdk.Address) string {
@@ -369,6 +447,17 @@ func sortedKeys(m map[string]int64) []string {
 
 func (d *director) genDT() time.Duration {
 	now := d.n.Time
+	if d.k.pSmallDTFresh > 0 {
+		fresh := false
+		for _, a := range sortedKeys(d.jailedAtH) {
+			if d.freshlyJailed(a, d.n.Height+1) {
+				fresh = true
+			}
+		}
+		if fresh && pct(d.rt, "dtSmallFresh", d.k.pSmallDTFresh) {
+			return rapid.SampledFrom([]time.Duration{0, time.Second, time.Second, 2 * time.Second, 5 * time.Second}).Draw(d.rt, "dtSmall")
+		}
+	}
 	opts := []time.Duration{0, time.Second, time.Second, 5 * time.Second, 15 * time.Second, 40 * time.Second, 100 * time.Second}
 	var targeted []time.Duration
 	add := func(t time.Time, offs []time.Duration) {
@@ -383,8 +472,8 @@ func (d *director) genDT() time.Duration {
 	}
 	for _, r := range d.cur.Validators {
 		if r.Jailed {
-			if si, ok := d.cur.SignInfos[posview.Hex(r.Address)]; ok {
-				add(si.JailedUntil, []time.Duration{-time.Second, -time.Second, 0, 0, time.Second, time.Second})
+			if dl, ok := d.deadlineOf(posview.Hex(r.Address)); ok {
+				add(dl, []time.Duration{-time.Second, -time.Second, 0, 0, time.Second, time.Second})
 			}
 		}
 		if r.Status == sdk.Unstaking {
@@ -411,6 +500,12 @@ func (d *director) genBlock() (chain.Block, []txRec, []inject, string) {
 		p := 4
 		if d.victims[a] {
 			p = d.k.pVictimAbsent
+			if miss, ok := d.plannedAbsence(a, h); ok {
+				p = 0
+				if miss {
+					p = 100
+				}
+			}
 		}
 		if pct(rt, "absent", p) {
 			b.Absent[a] = true
@@ -474,25 +569,32 @@ func (d *director) genBlock() (chain.Block, []txRec, []inject, string) {
 	}
 	ntx := rapid.IntRange(0, d.k.maxTxs).Draw(rt, "nTxs")
 	var txs []txRec
-	if d.k.pUnjailNearDeadline > 0 {
+	if d.k.pUnjailNearDeadline > 0 || d.k.pUnjailFresh > 0 {
 		for _, r := range d.cur.Validators {
-			si, ok := d.cur.SignInfos[posview.Hex(r.Address)]
+			dl, ok := d.deadlineOf(posview.Hex(r.Address))
 			if !r.Jailed || !ok {
 				continue
 			}
-			if gap := si.JailedUntil.Sub(newTime); gap > 100*time.Second || gap < -100*time.Second {
+			op, ok := d.keys[posview.Hex(r.Address)]
+			if !ok {
 				continue
 			}
-			op, ok := d.keys[posview.Hex(r.Address)]
-			if !ok || !pct(rt, "unjailNear", d.k.pUnjailNearDeadline) {
-				continue
+			if gap := dl.Sub(newTime); gap > 100*time.Second || gap < -100*time.Second {
+				// far from the deadline: only a node jailed in the last 3 blocks is worth an (early) attempt
+				if !d.freshlyJailed(posview.Hex(r.Address), h) || !pct(rt, "unjailFresh", d.k.pUnjailFresh) {
+					continue
+				}
+			} else if !pct(rt, "unjailNear", d.k.pUnjailNearDeadline) {
+				if !d.freshlyJailed(posview.Hex(r.Address), h) || !pct(rt, "unjailFresh", d.k.pUnjailFresh) {
+					continue
+				}
 			}
 			signer := op
 			if k2, ok := d.keys[posview.Hex(posview.Output(r))]; ok && rapid.IntRange(0, 2).Draw(rt, "nearByOutput") == 0 {
 				signer = k2
 			}
 			msg := &nodesTypes.MsgUnjail{ValidatorAddr: chain.Addr(op), Signer: chain.Addr(signer)}
-			t := d.sign(msg, signer, "unjail", fmt.Sprintf("unjail %s (deadline %+ds)", d.w.KeyName(op), int(si.JailedUntil.Sub(newTime)/time.Second)), chain.Addr(op))
+			t := d.sign(msg, signer, "unjail", fmt.Sprintf("unjail %s (deadline %+ds)", d.w.KeyName(op), int(dl.Sub(newTime)/time.Second)), chain.Addr(op))
 			txs = append(txs, t)
 			b.Txs = append(b.Txs, t.Bytes)
 			desc += " | " + t.Desc
@@ -618,7 +720,36 @@ func (d *director) step() *stepRec {
 	d.cur = st.Post
 	d.T = st.TPost
 	d.hist = append(d.hist, st)
+	d.rememberJails(st)
 	return st
+}
+
+// rememberJails keeps the generator's memory of who was jailed when, and of the deadline visible at that moment.
+func (d *director) rememberJails(st *stepRec) {
+	for a, q := range st.Post.ByAddr {
+		if !q.Jailed {
+			delete(d.jailedAtH, a)
+			delete(d.jailDeadline, a)
+			continue
+		}
+		if p, was := st.Pre.ByAddr[a]; was && p.Jailed {
+			if _, ok := d.jailedAtH[a]; ok {
+				continue
+			}
+		}
+		d.jailedAtH[a] = st.H
+		dl := st.AfterBegin.SignInfos[a].JailedUntil
+		if x := st.Post.SignInfos[a].JailedUntil; x.After(dl) {
+			dl = x
+		}
+		d.jailDeadline[a] = dl
+	}
+	for _, a := range sortedKeys(d.jailedAtH) {
+		if _, ok := st.Post.ByAddr[a]; !ok {
+			delete(d.jailedAtH, a)
+			delete(d.jailDeadline, a)
+		}
+	}
 }
 
 // ---------------------------------------------------------------------------------------------
